@@ -45,11 +45,17 @@ Theorem declared_default_resolves : forall s u, stk s <> [] -> u <> 0 ->
 Proof. exact declare_default_resolves. Qed.
 Print Assumptions declared_default_resolves.
 
+(* getResultPrefixForNamespace only answers with a prefix that the stack still resolves to the
+   namespace (KN1 repair: a prefix re-bound in a nearer context is not returned) *)
+Theorem found_prefix_resolves : forall k u p, prefix_for_ns k u = Some p -> ns_for_prefix k p = Some u.
+Proof. exact prefix_for_ns_sound. Qed.
+Print Assumptions found_prefix_resolves.
+
 (* ---- xsl:attribute with a namespace attribute, one instruction, every engine state ---- *)
 
 (* result_ns_wellformed_partial, attribute clause: in any state with a pending element, if the
-   instruction raises none of the hazards (exact decidable guard: the hazard list is unchanged;
-   here that excludes a shadowed prefix (KN1) and a duplicate expanded name (K17)), the attribute
+   instruction raises no hazard (exact decidable guard: the hazard list is unchanged; since the
+   KN1 repair that excludes only a duplicate expanded name (K17)), the attribute
    it leaves in the pending list has the requested local name and a prefix that the
    result-namespace stack resolves to exactly the requested URI — whether that prefix was found
    in scope, supplied by the name, or invented *)
@@ -90,42 +96,31 @@ Theorem lre_one_declaration_per_prefix : forall name inscope excl attrs,
 Proof. exact lre_decls_nodup. Qed.
 Print Assumptions lre_one_declaration_per_prefix.
 
-(* ---- the full statement is false for the code as it is: witnesses (replays in corpus/C14) ---- *)
+(* ---- the full statement is still false for the code as it is in two classes (known findings
+   K17, KN6): witnesses, replays in corpus/C14 ---- *)
 
-Theorem result_ns_wellformed_refuted_K3 : refuted k3_prog.
-Proof. exact k3_refuted_l. Qed.
-Print Assumptions result_ns_wellformed_refuted_K3.
-Theorem result_ns_wellformed_refuted_K16 : refuted k16_prog.
-Proof. exact k16_refuted_l. Qed.
-Print Assumptions result_ns_wellformed_refuted_K16.
 Theorem result_ns_wellformed_refuted_K17 : refuted k17_prog.
 Proof. exact k17_refuted_l. Qed.
 Print Assumptions result_ns_wellformed_refuted_K17.
-Theorem result_ns_wellformed_refuted_shadowed_prefix : refuted shadow_prog.
-Proof. exact shadow_refuted_l. Qed.
-Print Assumptions result_ns_wellformed_refuted_shadowed_prefix.
-Theorem result_ns_wellformed_refuted_xml_like_prefix : refuted xmlish_prog.
-Proof. exact xmlish_refuted_l. Qed.
-Print Assumptions result_ns_wellformed_refuted_xml_like_prefix.
-Theorem result_ns_wellformed_refuted_undeclared_element_prefix : refuted undecl_prog.
-Proof. exact undecl_refuted_l. Qed.
-Print Assumptions result_ns_wellformed_refuted_undeclared_element_prefix.
-Theorem result_ns_wellformed_refuted_xml_prefix : refuted xmlprefix_prog.
-Proof. exact xmlprefix_refuted_l. Qed.
-Print Assumptions result_ns_wellformed_refuted_xml_prefix.
 Theorem result_ns_wellformed_refuted_element_empty_namespace : refuted emptyns_prog.
 Proof. exact emptyns_refuted_l. Qed.
 Print Assumptions result_ns_wellformed_refuted_element_empty_namespace.
-Theorem late_attribute_leaks_refuted :
-  guard_ok leak_prog = false /\
-  nth 2 (events (run leak_prog)) EText =
-    EStart (None, U 3) (0, U 3)
-      [mkAttr (Some AXmlns, AGen 0) 4 no_req; mkAttr (Some (AGen 0), U 2) 1 (4, U 2)].
-Proof. exact leak_refuted_l. Qed.
-Print Assumptions late_attribute_leaks_refuted.
+
+(* ---- regression examples: the programs of the repaired defects K3, K16, KN1, KN2, KN3, KN4, KN5
+   now satisfy the guard and the reader accepts their events ---- *)
+Example repaired_K3 : accepted k3_prog. Proof. exact k3_accepted_l. Qed.
+Example repaired_K16_xmlns : accepted k16_prog. Proof. exact k16_accepted_l. Qed.
+Example repaired_K16_xml : accepted k16b_prog. Proof. exact k16b_accepted_l. Qed.
+Example repaired_KN1_shadowed_prefix : accepted shadow_prog. Proof. exact shadow_accepted_l. Qed.
+Example repaired_KN2_late_attribute :
+  accepted leak_prog /\ nth 2 (events (run leak_prog)) EText = EStart (None, U 3) (0, U 3) [].
+Proof. exact leak_accepted_l. Qed.
+Example repaired_KN3_xml_like_prefix : accepted xmlish_prog. Proof. exact xmlish_accepted_l. Qed.
+Example repaired_KN4_undeclared_element_prefix : accepted undecl_prog. Proof. exact undecl_accepted_l. Qed.
+Example repaired_KN5_xml_prefix : accepted xmlprefix_prog. Proof. exact xmlprefix_accepted_l. Qed.
 
 (* ---- the guard is satisfiable and then the reader accepts the events ---- *)
-Example guard_satisfiable_1 : guard_ok ok_prog1 = true /\ wellformed (events (run ok_prog1)) = true.
+Example guard_satisfiable_1 : accepted ok_prog1.
 Proof. exact ok_prog1_l. Qed.
-Example guard_satisfiable_2 : guard_ok ok_prog2 = true /\ wellformed (events (run ok_prog2)) = true.
+Example guard_satisfiable_2 : accepted ok_prog2.
 Proof. exact ok_prog2_l. Qed.
